@@ -1,6 +1,11 @@
 """C07 - a failed hook evaluation raises the documented error and leaves no residue.
 
-Tie: K (hand-written model lean/PyrollModel/Failure.lean, theorems lean/PyrollProps/C07.lean).
+Tie: T + K (hand-written model lean/PyrollModel/Failure.lean, theorems lean/PyrollProps/C07.lean).
+T: `translate` re-reads pyroll/core/hooks.py (driver/translate/hooks_skeleton.py -> lean/PyrollModel/Gen/C07Hooks.lean): the
+model CONSUMES the conversions of Hook.__get__ (which outcome of get_result becomes which exception, in order), the position of
+the store among them, and where / under which guard HookFunction.__call__ discards the re-entrancy mark; the statements of
+_all_finite, HookFunction.__call__, Hook.__get__ (explicit / remembered part), get_result, has_value are pinned by
+`hooks_source_as_modelled`.
 
 The harness builds real `HookHost` subclasses with `type()`, registers implementations that are small
 first-order programs (the `Body` language of the model: return a value / the accumulator, raise, read a hook of
@@ -39,6 +44,7 @@ RULE = ("a case = one generated class (1-4 hooks, 1-3 instances, 1-10 implementa
         "values (result-kind zoo), runaway (mutual recursion with/without guards), exotic (oracle only: numpy "
         "scalars, object/2-d arrays), wrappers (oracle only).")
 ASSUMPTIONS = [
+    "source tie (T): pyroll/core/hooks.py is read with ast into canonical role lines and typed facts (driver/translate/hooks_skeleton.py, trusted); the facts the model consumes are also executed against the imported pyroll.core.hooks on every run (self_check), the role lines are compared with the hand-written shape lean/PyrollModel/HookSource.lean by the theorem hooks_source_as_modelled",
     "np.isfinite classification by value kind is modelled (Failure.shape/allNumeric/npIsFiniteAll), validated by the "
     "correspondence on every generated value; ints are small (no object-dtype big ints)",
     "CPython try/finally, hasattr (swallows exactly AttributeError) and the recursion limit (= fuel) are modelled; "
@@ -47,6 +53,17 @@ ASSUMPTIONS = [
     "wrapper implementations are not in the C07 model (C01 models them); the oracle exercises them on the real code",
     "sets, dicts and geometry objects are not searched for numbers (the statement lists them as non-numeric)",
 ]
+
+
+
+def translate(ctx):
+    """(T) re-read pyroll/core/hooks.py of the working tree -> lean/PyrollModel/Gen/C07Hooks.lean (role lines of _all_finite,
+    HookFunction.__call__, Hook.__get__, get_result, has_value + the facts the model consumes: the conversions of __get__ and
+    their order, the position of the store among them, where and under which guard the re-entrancy mark is discarded)"""
+    from ..translate import hooks_skeleton
+    info = hooks_skeleton.emit_for(ctx, ID)
+    ctx.notes["hooks_source"] = {k: v for k, v in info["facts"].items() if k in hooks_skeleton.SELECTION[ID]["fact_names"]}
+
 
 FUEL = 700            # model fuel; 3..7 per nesting level -> 100..233 levels
 HIT_DEPTH = 60        # the implementation is said to have run away when more than this many activations nest
